@@ -106,13 +106,25 @@ def python_text(sc, ap, order_seed, id_salt=None):
 PREBUILT_TYPES = {}      # tuple(f_values) -> user type map made at worker start (default index variables)
 
 
-def fortran_text(sc, ap, order_seed, id_salt=None, utm=None):
+def fortran_text(sc, ap, order_seed, id_salt=None, utm=None, options=None):
     import dagrt.codegen.fortran as f
     from simdag.gen.fortran_subset import make_registry, module_preamble, user_type_map
     code = build_dag(sc, ap, order_seed, id_salt=id_salt)
     freg, _twins = make_registry(sc)
+    kw = {}
+    options = options or {}
+    if options.get("instrumented"):
+        # generator configuration: phase/function counters and timers
+        kw.update(emit_instrumentation=True, timing_function="second")
+    if options.get("hooks"):
+        # ... and two notification functions around every state update (the method does not call them itself)
+        from dagrt.function_registry import register_function
+        for fn in ("notify_pre", "notify_post"):
+            freg = register_function(freg, fn, ("updated_component",), result_names=(), result_kinds=())
+            freg = freg.register_codegen(fn, "fortran", f.CallCode("\n    ! %s\n    " % fn))
+        kw.update(call_before_state_update="notify_pre", call_after_state_update="notify_post")
     cg = f.CodeGenerator("m", function_registry=freg, user_type_map=utm if utm is not None else user_type_map(sc),
-                         module_preamble=module_preamble(sc))
+                         module_preamble=module_preamble(sc), **kw)
     buf = io.StringIO()
     with contextlib.redirect_stdout(buf):
         return cg(code)
@@ -226,7 +238,8 @@ def job_c15(job):
                     fortran_text(scf, apf, None, None, utm=utm)
                 except Exception:
                     pass
-            out["fortran"] = fortran_text(scf, apf, job.get("order_seed"), job.get("id_salt"), utm=utm)
+            out["fortran"] = fortran_text(scf, apf, job.get("order_seed"), job.get("id_salt"), utm=utm,
+                                          options=job.get("f_options"))
         except Exception as e:
             out["fortran_exc"] = type(e).__name__ + ":" + str(e)[:120]
     return out
@@ -246,6 +259,7 @@ def job_c14(job):
     from simdag.gen.kinds import build_kind_program
     rng = random.Random(job["perm_seed"]) if job.get("perm_seed") is not None else None
     names, phases, freg = build_kind_program(job["values"], job["source"])
+    names0, phases0 = list(names), [list(p) for p in phases]
     if job.get("same_ids"):
         # hand-written ids that are unique within a phase only (s0, s1, ... in every phase)
         renamed = []
@@ -269,9 +283,25 @@ def job_c14(job):
         # one-shot iterables, which is what the Fortran generator passes (get_statements_in_ast)
         phases = [iter(list(p)) for p in phases]
     buf = io.StringIO()
+    finder = SymbolKindFinder(freg)
+    if job.get("finder_used_before"):
+        # history of the finder object itself: an earlier inference on it, over the same phase and variable
+        # names, that could not succeed (nothing of it belongs to the next call)
+        from dagrt.language import CodeBuilder
+        used = sorted(set().union(*[st.get_written_variables() for p in phases0 for st in p]) or {"x"})
+        with CodeBuilder(names0[0]) as cbp:
+            cbp(used[0], "poison_a + poison_b")
+            cbp("poison_c", "%s*poison_a" % used[-1])
+        try:
+            with contextlib.redirect_stdout(io.StringIO()):
+                finder([names0[0]], [list(cbp.statements)])
+        except Exception:
+            pass
     try:
         with contextlib.redirect_stdout(buf):
-            if job.get("via_infer_kinds") and not job.get("as_iter"):
+            if job.get("finder_used_before") and not job.get("as_iter"):
+                tbl = finder(names, phases)
+            elif job.get("via_infer_kinds") and not job.get("as_iter"):
                 # the public entry point, on a description whose phases are presented in this order
                 from dagrt.data import infer_kinds
                 from dagrt.language import DAGCode, ExecutionPhase
